@@ -27,6 +27,7 @@ import (
 	"net/http"
 	"os"
 	"path/filepath"
+	"runtime"
 	"sync"
 	"sync/atomic"
 	"time"
@@ -48,7 +49,7 @@ var (
 	pps = []byte{0x68, 0xEB, 0xEC, 0xB2, 0x2C}
 	asc = []byte{0x12, 0x10}
 
-	cnt struct{ pub, pubFail, sub, api, kick, rtp, custom, aimed, tickAfterDispose int64 }
+	cnt struct{ pub, pubFail, sub, api, kick, rtp, custom, aimed, tickAfterDispose, statReads int64 }
 	// deadline of the current server lifetime (unix ns); the main goroutine moves it while the workers poll it
 	endNs atomic.Int64
 
@@ -424,6 +425,36 @@ func customizeWorker(r *rand.Rand, lals logic.ILalServer) {
 	}
 }
 
+// statReader issues stat requests that overlap with those of its twin (and of the api workers, the tick's
+// group dump and the update notification) and reads every entry of the answer after the call returned:
+// what GetStat hands out must not share memory with the group. Counted when >= 2 subscribers were attached
+func statReader(r *rand.Rand, lals logic.ILalServer) {
+	var sink int
+	for alive() {
+		for _, name := range []string{"s0", "s1"} {
+			if sg := lals.StatGroup(name); sg != nil {
+				runtime.Gosched() // let the twin's request in before the entries are read
+				for _, s := range sg.StatSubs {
+					sink += len(s.SessionId) + int(s.WroteBytesSum) + len(s.RemoteAddr)
+				}
+				for _, f := range sg.Fps {
+					sink += int(f.V)
+				}
+				if len(sg.StatSubs) >= 2 {
+					atomic.AddInt64(&cnt.statReads, 1)
+				}
+			}
+		}
+		for _, sg := range lals.StatAllGroup() {
+			for _, s := range sg.StatSubs {
+				sink += len(s.SessionId)
+			}
+		}
+		sleepMs(r, 0, 3)
+	}
+	_ = sink
+}
+
 func directWorker(r *rand.Rand, lals logic.ILalServer) {
 	for alive() {
 		_ = lals.StatAllGroup()
@@ -485,8 +516,8 @@ func main() {
 		cycles++
 	}
 	dumpLockTrace()
-	fmt.Printf("lalrace: %ds seed=%d server_lifetimes=%d publishes=%d (refused %d) subscriptions=%d api_calls=%d kicks=%d rtp_pub=%d customize_pub=%d dispose_aimed_at_tick=%d tick_ran_after_dispose=%d\n",
-		secs, seed, cycles, cnt.pub, cnt.pubFail, cnt.sub, cnt.api, cnt.kick, cnt.rtp, cnt.custom, cnt.aimed, cnt.tickAfterDispose)
+	fmt.Printf("lalrace: %ds seed=%d server_lifetimes=%d publishes=%d (refused %d) subscriptions=%d api_calls=%d kicks=%d rtp_pub=%d customize_pub=%d dispose_aimed_at_tick=%d tick_ran_after_dispose=%d overlapping_stat_reads_with_2_subs=%d\n",
+		secs, seed, cycles, cnt.pub, cnt.pubFail, cnt.sub, cnt.api, cnt.kick, cnt.rtp, cnt.custom, cnt.aimed, cnt.tickAfterDispose, cnt.statReads)
 }
 
 func runCycle(seed int64, secs int, tmp string, sink string) {
@@ -555,6 +586,8 @@ func runCycle(seed int64, secs int, tmp string, sink string) {
 	spawn(func(r *rand.Rand) { rtpPubWorker(r, apiPort, tmp) })
 	spawn(func(r *rand.Rand) { customizeWorker(r, lals) })
 	spawn(func(r *rand.Rand) { directWorker(r, lals) })
+	spawn(func(r *rand.Rand) { statReader(r, lals) })
+	spawn(func(r *rand.Rand) { statReader(r, lals) })
 
 	allDone := make(chan struct{})
 	go func() { wg.Wait(); close(allDone) }()
